@@ -1,10 +1,207 @@
-"""C02 — links: Link.*, _find_link, relate, unrelate, delete."""
+"""C02 — links stay symmetric, bounded and atomic: Link.*, _find_link, relate, unrelate.
+
+Abstraction: partners(L, x) (contracts.base) = the view of the ordered set L holds for x, [] when x is no key.
+link_wf(L): every key holds its own, non-empty, allocated set (ghost owner_link / owner_key record which link and key a set
+belongs to, so that changing one set provably leaves every other key and every other link alone)."""
 from pyvc.spec import Module, Raises, Loop
 from pyvc.sorts import INT, BOOL, STR, VAL, NONE, RefT, SeqT, SetT, MapT, TupT
 from .base import INST, MC, MM, LINK, ASSOC, OSET, QSET
 
 M = Module('contracts.c02', prop='C02')
-M.use('contracts.base')
+M.use('contracts.base', 'contracts.oset_client')
+M.fields({'OrderedSet.owner_link': LINK, 'OrderedSet.owner_key': INST})
+
+M.spec('''
+def distinct(v):
+    return all(all(implies(i < j, v[i] is not v[j]) for j in range(0, len(v))) for i in range(0, len(v)))
+
+def link_wf(L):
+    return all(implies(k in L._dict_, allocated(L._dict_[k]) and L._dict_[k].owner_link is L and L._dict_[k].owner_key is k
+                       and len(L._dict_[k].view) > 0 and k is not None)
+               for k in anyref('Class'))
+
+def foreign_sets_untouched(L):
+    return all(implies(old(s.owner_link) is not L and not fresh(s),
+                       s.view == old(s.view) and s.owner_link is old(s.owner_link) and s.owner_key is old(s.owner_key))
+               for s in anyref('OrderedSet'))
+
+def other_keys_untouched(L, x):
+    return all(implies(k is not x, (k in L._dict_) == old(k in L._dict_) and partners(L, k) == old(partners(L, k)))
+               for k in anyref('Class'))
+''')
+
+LINKREP = ['self._dict_', 'OrderedSet.view', 'OrderedSet.owner_link', 'OrderedSet.owner_key']
 
 M.contract('xtuml.meta.Link.navigate', [('self', LINK), ('instance', INST)], returns=SeqT(INST),
            ensures={'partners-in-link-order': 'result == partners(self, instance)'}, modifies=[])
+M.contract('xtuml.meta.Link.navigate_one', [('self', LINK), ('instance', INST)], returns=INST,
+           ensures={'first-partner-or-none': 'result is (partners(self, instance)[0] if len(partners(self, instance)) > 0 else None)'},
+           modifies=[])
+
+M.contract('xtuml.meta.Link.connect', [('self', LINK), ('instance', INST), ('another_instance', INST), ('check', BOOL, 'True')],
+           returns=BOOL,
+           requires={'wf': 'link_wf(self)', 'instances': 'instance is not None and another_instance is not None'},
+           ensures={
+               'accepted-unless-second-partner-on-single-valued-end':
+                   'result == (old(another_instance in partners(self, instance)) or not (old(len(partners(self, instance))) > 0 and not self.many and check))',
+               'partners': 'partners(self, instance) == (old(partners(self, instance)) + [another_instance] '
+                           'if result and not old(another_instance in partners(self, instance)) else old(partners(self, instance)))',
+               'other-keys': 'other_keys_untouched(self, instance)',
+               'wf': 'link_wf(self)', 'other-links': 'foreign_sets_untouched(self)'},
+           modifies=LINKREP,
+           ghost={'exit': [('self._dict_[instance].owner_link', 'self'), ('self._dict_[instance].owner_key', 'instance')]})
+
+M.contract('xtuml.meta.Link.disconnect', [('self', LINK), ('instance', INST), ('another_instance', INST)], returns=BOOL,
+           requires={'wf': 'link_wf(self)', 'instances': 'instance is not None and another_instance is not None'},
+           ensures={
+               'accepted-iff-connected': 'result == old(another_instance in partners(self, instance))',
+               'partners': 'partners(self, instance) == seq_remove(old(partners(self, instance)), another_instance)',
+               'removed-is-absent': 'another_instance not in partners(self, instance)',
+               'other-partners-kept': 'all(implies(v is not another_instance, (v in partners(self, instance)) == old(v in partners(self, instance))) for v in anyref("Class"))',
+               'other-keys': 'other_keys_untouched(self, instance)',
+               'wf': 'link_wf(self)', 'other-links': 'foreign_sets_untouched(self)'},
+           modifies=LINKREP)
+
+# ---- finding the association two instances are related across
+M.spec('''
+def norm_rel(rel_id):
+    return ('R' + int_str(rel_id)) if is_int(rel_id) else rel_id
+
+def kind_of(inst):
+    return inst.__metaclass__.kind
+
+def src_match(ass, i1, i2, rel, phrase):
+    return (ass.rel_id == rel and ass.source_link.from_metaclass.kind == kind_of(i1)
+            and ass.source_link.to_metaclass.kind == kind_of(i2) and ass.source_link.phrase == phrase)
+
+def tgt_match(ass, i1, i2, rel, phrase):
+    return (ass.rel_id == rel and ass.target_link.from_metaclass.kind == kind_of(i1)
+            and ass.target_link.to_metaclass.kind == kind_of(i2) and ass.target_link.phrase == phrase)
+
+def any_match(m, i1, i2, rel, phrase):
+    return any(src_match(a, i1, i2, rel, phrase) or tgt_match(a, i1, i2, rel, phrase) for a in m.associations)
+
+def first_match_at(m, i1, i2, rel, phrase, j):
+    return (0 <= j and j < len(m.associations)
+            and (src_match(m.associations[j], i1, i2, rel, phrase) or tgt_match(m.associations[j], i1, i2, rel, phrase))
+            and all(not src_match(m.associations[i], i1, i2, rel, phrase) and not tgt_match(m.associations[i], i1, i2, rel, phrase)
+                    for i in range(0, j)))
+
+def inst_ok(i):
+    return i is not None and i.__metaclass__ is not None and i.__metaclass__.metamodel is not None
+
+def assocs_ok(m):
+    return all(a is not None and a.source_link is not None and a.target_link is not None
+               and a.source_link.from_metaclass is not None and a.source_link.to_metaclass is not None
+               and a.target_link.from_metaclass is not None and a.target_link.to_metaclass is not None for a in m.associations)
+''')
+
+M.contract('xtuml.meta.get_metaclass', [('class_or_instance', INST)], returns=MC,
+           requires={'instance': 'class_or_instance is not None'},
+           ensures={'metaclass-of-instance': 'result is class_or_instance.__metaclass__'}, modifies=[])
+
+FOUND = TupT(INST, INST, ASSOC)
+M.contract('xtuml.meta._find_link', [('inst1', INST), ('inst2', INST), ('rel_id', VAL), ('phrase', STR)], returns=FOUND,
+           requires={'instances': 'inst_ok(inst1) and inst_ok(inst2)', 'rel-id-shape': 'is_int(rel_id) or is_str(rel_id)',
+                     'associations': 'assocs_ok(inst1.__metaclass__.metamodel)'},
+           ensures={'first-matching-association-oriented':
+                    'any(first_match_at(inst1.__metaclass__.metamodel, inst1, inst2, norm_rel(rel_id), phrase, j) '
+                    'and result[2] is inst1.__metaclass__.metamodel.associations[j] '
+                    'and ((result[0] is inst1 and result[1] is inst2) if src_match(result[2], inst1, inst2, norm_rel(rel_id), phrase) '
+                    'else (result[0] is inst2 and result[1] is inst1)) '
+                    'for j in range(0, len(inst1.__metaclass__.metamodel.associations)))'},
+           raises=[Raises('UnknownLinkException', when='not any_match(inst1.__metaclass__.metamodel, inst1, inst2, norm_rel(rel_id), phrase)')],
+           modifies=[],
+           loops={0: Loop(inv={'no-earlier-match': 'all(not src_match(_seq[i], inst1, inst2, rel_id, phrase) and not tgt_match(_seq[i], inst1, inst2, rel_id, phrase) for i in range(0, _i))',
+                               'iterates': '_seq == metaclass1.metamodel.associations',
+                               'locals': 'metaclass1 is inst1.__metaclass__ and metaclass2 is inst2.__metaclass__ and rel_id == norm_rel(old(rel_id))'})})
+
+# ---- relate / unrelate: both directed links change together or not at all
+M.spec('''
+def mirror(a):
+    return all(all(implies(x is not None and y is not None,
+                           (y in partners(a.source_link, x)) == (x in partners(a.target_link, y)))
+                   for y in anyref('Class')) for x in anyref('Class'))
+
+def second_partner(L, x, y):
+    return (y not in partners(L, x)) and len(partners(L, x)) > 0 and not L.many
+
+def mm(i):
+    return i.__metaclass__.metamodel
+
+def both(a, b):
+    return a is not None and b is not None
+
+def link_unchanged(L):
+    return all((k in L._dict_) == old(k in L._dict_) and partners(L, k) == old(partners(L, k)) for k in anyref('Class'))
+
+def model_as_before(a):
+    return link_unchanged(a.source_link) and link_unchanged(a.target_link) and sets_of_other_links_untouched(a.source_link, a.target_link)
+
+def sets_of_other_links_untouched(L1, L2):
+    return all(implies(old(s.owner_link) is not L1 and old(s.owner_link) is not L2 and not fresh(s), s.view == old(s.view))
+               for s in anyref('OrderedSet'))
+''')
+
+RELREP = ['Link._dict_', 'OrderedSet.view', 'OrderedSet.owner_link', 'OrderedSet.owner_key']
+REL_LETS = {'f': '_find_link(from_instance, to_instance, rel_id, phrase)'}
+REL_REQ = {'instances': 'implies(both(from_instance, to_instance), inst_ok(from_instance) and inst_ok(to_instance) '
+                        'and assocs_ok(mm(from_instance)))',
+           'rel-id-shape': 'is_int(rel_id) or is_str(rel_id)',
+           'found-association-well-formed': 'implies(both(from_instance, to_instance) and any_match(mm(from_instance), from_instance, to_instance, norm_rel(rel_id), phrase), '
+                                            'f[0] is not None and f[1] is not None and f[2] is not None and f[2].source_link is not None and f[2].target_link is not None '
+                                            'and f[2].source_link is not f[2].target_link and link_wf(f[2].source_link) and link_wf(f[2].target_link) and mirror(f[2]))'}
+M.contract('xtuml.meta.relate', [('from_instance', INST), ('to_instance', INST), ('rel_id', VAL), ('phrase', STR, "''")],
+           returns=BOOL, lets=REL_LETS, requires=REL_REQ,
+           ensures={
+               'none-is-refused-without-effect': 'implies(not both(from_instance, to_instance), result == False and unchanged())',
+               'accepted': 'implies(both(from_instance, to_instance), result == True)',
+               'source-side': 'implies(both(from_instance, to_instance), partners(f[2].source_link, f[0]) == '
+                              '(old(partners(f[2].source_link, f[0])) if old(f[1] in partners(f[2].source_link, f[0])) else old(partners(f[2].source_link, f[0])) + [f[1]]))',
+               'target-side': 'implies(both(from_instance, to_instance), partners(f[2].target_link, f[1]) == '
+                              '(old(partners(f[2].target_link, f[1])) if old(f[0] in partners(f[2].target_link, f[1])) else old(partners(f[2].target_link, f[1])) + [f[0]]))',
+               'other-keys': 'implies(both(from_instance, to_instance), other_keys_untouched(f[2].source_link, f[0]) and other_keys_untouched(f[2].target_link, f[1]))',
+               'other-links': 'implies(both(from_instance, to_instance), sets_of_other_links_untouched(f[2].source_link, f[2].target_link))',
+               'still-mirrored': 'implies(both(from_instance, to_instance), mirror(f[2]))',
+               'links-well-formed': 'implies(both(from_instance, to_instance), link_wf(f[2].source_link) and link_wf(f[2].target_link))',
+           },
+           raises=[Raises('UnknownLinkException', when='both(from_instance, to_instance) and not any_match(mm(from_instance), from_instance, to_instance, norm_rel(rel_id), phrase)'),
+                   Raises('RelateException', when='both(from_instance, to_instance) and any_match(mm(from_instance), from_instance, to_instance, norm_rel(rel_id), phrase) and '
+                          '(second_partner(f[2].source_link, f[0], f[1]) or second_partner(f[2].target_link, f[1], f[0]))',
+                          post={'model-exactly-as-before': 'model_as_before(f[2])'})],
+           modifies=RELREP)
+
+M.contract('xtuml.meta.unrelate', [('from_instance', INST), ('to_instance', INST), ('rel_id', VAL), ('phrase', STR, "''")],
+           returns=BOOL, lets=REL_LETS, requires=REL_REQ,
+           ensures={
+               'none-is-refused-without-effect': 'implies(not both(from_instance, to_instance), result == False and unchanged())',
+               'accepted': 'implies(both(from_instance, to_instance), result == True)',
+               'source-side': 'implies(both(from_instance, to_instance), partners(f[2].source_link, f[0]) == seq_remove(old(partners(f[2].source_link, f[0])), f[1]))',
+               'target-side': 'implies(both(from_instance, to_instance), partners(f[2].target_link, f[1]) == seq_remove(old(partners(f[2].target_link, f[1])), f[0]))',
+               'other-keys': 'implies(both(from_instance, to_instance), other_keys_untouched(f[2].source_link, f[0]) and other_keys_untouched(f[2].target_link, f[1]))',
+               'other-links': 'implies(both(from_instance, to_instance), sets_of_other_links_untouched(f[2].source_link, f[2].target_link))',
+               'still-mirrored': 'implies(both(from_instance, to_instance), mirror(f[2]))',
+               'links-well-formed': 'implies(both(from_instance, to_instance), link_wf(f[2].source_link) and link_wf(f[2].target_link))',
+           },
+           raises=[Raises('UnknownLinkException', when='both(from_instance, to_instance) and not any_match(mm(from_instance), from_instance, to_instance, norm_rel(rel_id), phrase)'),
+                   Raises('UnrelateException', when='both(from_instance, to_instance) and any_match(mm(from_instance), from_instance, to_instance, norm_rel(rel_id), phrase) and '
+                          'f[1] not in partners(f[2].source_link, f[0])',
+                          post={'model-exactly-as-before': 'model_as_before(f[2])'})],
+           modifies=RELREP)
+
+M.lemma('C02.lemma.unrelate_exactly_undoes_relate',
+        [('from_instance', INST), ('to_instance', INST), ('rel_id', VAL), ('phrase', STR)], lets=REL_LETS,
+        requires=dict(REL_REQ, **{'both': 'both(from_instance, to_instance)',
+                                  'link-exists': 'any_match(mm(from_instance), from_instance, to_instance, norm_rel(rel_id), phrase)',
+                                  'not-yet-related': 'f[1] not in partners(f[2].source_link, f[0])',
+                                  'relate-allowed': 'not second_partner(f[2].source_link, f[0], f[1]) and not second_partner(f[2].target_link, f[1], f[0])'}),
+        source='''
+def lemma(from_instance, to_instance, rel_id, phrase):
+    t = _find_link(from_instance, to_instance, rel_id, phrase)
+    s0 = t[2].source_link.navigate(t[0])
+    t0 = t[2].target_link.navigate(t[1])
+    relate(from_instance, to_instance, rel_id, phrase)
+    unrelate(from_instance, to_instance, rel_id, phrase)
+    assert t[2].source_link.navigate(t[0]) == s0
+    assert t[2].target_link.navigate(t[1]) == t0
+''')
